@@ -147,6 +147,10 @@ fn message_type_of(code: u8) -> MessageType {
 /// Constant for decoding: at most eight live moment buffers of 65535 gates x 31 bytes (one being
 /// replaced) plus the pointer table, rounded up to 24 MiB.  Radial conversion additionally holds
 /// two more copies of the seven moments (borrowing result + consumed clone): 40 MiB.
+/// CPU seconds one decoding or conversion call may consume (the unchanged code's maximum is
+/// reported as `max_case_cpu_ms`, three orders of magnitude below).
+pub const CPU_BUDGET_S: u64 = 30;
+
 fn mem_bound(n: usize) -> usize {
     (24 * MIB) as usize + 64 * n
 }
@@ -259,11 +263,13 @@ pub fn run_op(obs: &mut Obs, op: Op, input: &[u8], family: &str) {
     // radial conversion of whatever decoded
     for m in radials {
         let base = mon::alloc_window_begin();
+        mon::case_begin("radial conversion", family, input);
         let r = mon::catch(|| {
             let a = m.radial();
             let b = m.clone().into_radial();
             (a.is_ok(), b.is_ok())
         });
+        mon::case_end();
         let (peak, _) = mon::alloc_window_end(base);
         obs.count("radial_conversions", 1);
         match r {
@@ -672,8 +678,8 @@ verdict monitors: panic hook, reader work <= 64*(plain-walk work + n) + 1 MiB (t
     {
         // a decoder that spins without reading evades the reader budget: CPU-time budget per call
         let (tier, sd) = (ctx.tier, ctx.seed);
-        mon::start_cpu_watchdog(60, move |op, family, input, cpu| {
-            crate::ev::report_stuck_and_exit("C04", tier, sd, op, family, input, cpu, 60)
+        mon::start_cpu_watchdog(CPU_BUDGET_S, move |op, family, input, cpu| {
+            crate::ev::report_stuck_and_exit("C04", tier, sd, op, family, input, cpu, CPU_BUDGET_S)
         });
     }
     let total: u64 = ctx.tier.pick(16_000, 1_200_000);
